@@ -160,7 +160,9 @@ pub fn check_buffer_at(buf: &[u8], owned: bool, placement: Placement) -> Result<
         if iterated.len() != n {
             return Err(format!("iter() yields {} pairs expected {}", iterated.len(), n));
         }
-        for i in (0..n + 3).chain([usize::MAX - 1, usize::MAX]) {
+        // indices at and beyond N, including ones whose low 32 bits are a valid index
+        let far: Vec<usize> = vec![1usize << 31, 1usize << 32, (1usize << 32) + 1, (1usize << 32) + n.saturating_sub(1), 1usize << 33, usize::MAX - 1, usize::MAX];
+        for i in (0..n + 3).chain(far) {
             let g = view.get(i);
             let gv = view.get_value(i);
             let it = view.iter().nth(i);
@@ -221,6 +223,24 @@ pub fn check_buffer_at(buf: &[u8], owned: bool, placement: Placement) -> Result<
                 }
                 (Some(_), false) => return Err(format!("find({:x}) returned a value for an absent tag", t)),
                 (None, true) => return Err(format!("find({:x}) returned nothing for a present tag", t)),
+            }
+        }
+        // lookups are pure: repeating them, in any order, gives the same answers
+        let mut present: Vec<u32> = want_tags.clone();
+        present.dedup();
+        for pass in 0..2 {
+            let order: Vec<u32> = if pass == 0 { present.clone() } else { present.iter().rev().copied().collect() };
+            for t in order {
+                for rep_no in 0..2 {
+                    match view.find(t) {
+                        Some(v) if pairs.iter().any(|(tag, r)| *tag == t && same_slice(v, buf, r)) => {}
+                        other => return Err(format!("find({:x}) (lookup #{} of that tag in a row, pass {}) = {:?} although the tag is present", t, rep_no + 1, pass + 1, other.map(|v| v.len()))),
+                    }
+                    match view.find_tag(t) {
+                        Some(j) if j < n && want_tags[j] == t => {}
+                        other => return Err(format!("find_tag({:x}) (repeated) = {:?} although the tag is present", t, other)),
+                    }
+                }
             }
         }
         if !view.tags_match_exactly(view.tags().iter().copied()) {
